@@ -6,11 +6,28 @@ sys.path.insert(0, HERE)
 from registry import PROPS, META
 VERIF = os.path.dirname(HERE)
 ids = [json.loads(l)["id"] for l in open(os.path.join(VERIF, "properties.jsonl"))]
+PART_DESC = {
+    "H": "generated histories on the handler-level driver against the reference model",
+    "W": "the same histories over the real connection stack (http.Server, x/net/websocket, websocket.Handle with the production decorators)",
+    "S": "concurrent blocks of 2-3 requests under a cooperative lock-level scheduler (sampled schedules; thorough: all schedules with <= 2 preemptions), invariants at quiescence",
+    "Wbp": "back-pressure scenario: a member stops reading while others pipeline requests / leave / move",
+    "R": "real threads (-race binary), sampled interleavings",
+    "binary": "the real executable with a fake discovery service and credit service",
+    "fuzz": "native Go fuzz target (quick: corpus replay, thorough: coverage-guided)",
+    "idsR": "real threads on the exported id sources with an atomic ownership table",
+    "ids": "complete enumeration of id-source sequences",
+}
 checks = []
 for pid in ids:
     if pid not in PROPS:
         continue
-    m = META[pid]
+    m = dict(META[pid])
+    names = [p["name"] for p in PROPS[pid]["parts"]]
+    extra = [f"{n} = {PART_DESC[n]}" for n in names if n in PART_DESC and n not in ("H",)]
+    if extra and "Parts of this check" not in m["text"]:
+        m["text"] += " Parts of this check besides the one described: " + "; ".join(extra) + "."
+    if "S" in names and "schedule" not in m["technique"]:
+        m["technique"] += "; schedule exploration over generated concurrent blocks (cooperative lock-level scheduler, rapid-drawn and bounded-preemption-enumerated schedules)"
     checks.append({
         "property_id": pid,
         "quick_cmd": f"./check {pid} --tier quick",
